@@ -39,7 +39,11 @@ mod verif_kani_blte_build {
             encryption: None,
         };
         match b.build() {
-            Err(_) => assert!(false, "a non-empty builder builds"),
+            Err(e) => {
+                // (BlteError's drop glue reaches binrw::Error: never drop it under CBMC)
+                core::mem::forget(e);
+                assert!(false, "a non-empty builder with chunks that fit the table builds");
+            }
             Ok(f) => {
                 assert!(f.chunks.len() == 2, "every added chunk is in the file");
                 assert!(f.chunks[0].mode == CompressionMode::None && f.chunks[0].data.len() == 0, "the empty chunk keeps position 0");
